@@ -170,7 +170,7 @@ def check_iface(ses, p, P, vs, Pc, obj, status, opt, iface, display):
     sol = _S()
     sol.x, sol.objval = out['x'], out['objval']
     soc = bool(P.qmat)
-    tol = Fraction(1, 10 ** 4) if soc else Fraction(1, 10 ** 6)
+    tol = Fraction(1, 10 ** 4) if (soc or iface == 'eco') else Fraction(1, 10 ** 6)      # ECOS(_BB) is an interior-point code
     ses.stats.obligations += 1
     ses.stats.kinds['status-agreement'] = ses.stats.kinds.get('status-agreement', 0) + 1
     if status in ('infeasible', 'unbounded'):
